@@ -618,6 +618,10 @@ func (pc *parentController) syncParentObject(parent *unstructured.Unstructured) 
 		pc.enqueueParentObjectAfter(parent, time.Duration(syncResult.ResyncAfterSeconds*float64(time.Second)))
 	}
 
+	// The status written below describes the parent generation the hooks were
+	// shown, even if removing the finalizer hands us a newer copy of the parent.
+	observedGeneration := parent.GetGeneration()
+
 	// If all revisions agree that they've finished finalizing,
 	// remove our finalizer.
 	if syncResult.Finalized {
@@ -675,7 +679,7 @@ func (pc *parentController) syncParentObject(parent *unstructured.Unstructured) 
 
 	// Update parent status.
 	// We'll want to make sure this happens after manageChildren once we support observedGeneration.
-	if _, err := pc.updateParentStatus(parent, syncResult.Status); err != nil {
+	if _, err := pc.updateParentStatus(parent, observedGeneration, syncResult.Status); err != nil {
 		if apierrors.IsNotFound(err) {
 			// Swallow the error since there's no point retrying if the parent is gone.
 			pc.logger.V(4).Info("Parent object has been deleted", "parent_kind", pc.parentResource.Kind, "object", klog.KRef(parent.GetNamespace(), parent.GetName()))
@@ -792,13 +796,13 @@ func (pc *parentController) claimChildren(parent *unstructured.Unstructured) (co
 	return childMap, nil
 }
 
-func (pc *parentController) updateParentStatus(parent *unstructured.Unstructured, status map[string]interface{}) (*unstructured.Unstructured, error) {
+func (pc *parentController) updateParentStatus(parent *unstructured.Unstructured, observedGeneration int64, status map[string]interface{}) (*unstructured.Unstructured, error) {
 	// Inject ObservedGeneration before comparing with old status,
 	// so we're comparing against the final form we desire.
 	if status == nil {
 		status = make(map[string]interface{})
 	}
-	status["observedGeneration"] = parent.GetGeneration()
+	status["observedGeneration"] = observedGeneration
 
 	// Overwrite .status field of parent object without touching other parts.
 	// We can't use Patch() because we need to ensure that the UID matches.
